@@ -71,6 +71,8 @@ class WebSocketClient(event.Producer, metaclass=abc.ABCMeta):
 
     def schedule_resubscription(self, channels: List[str]):
         self._pending_subscriptions.update(channels)
+        # Wake up the subscribe loop, otherwise the channels won't be subscribed until the next reconnection.
+        self._subscribe_request.set()
 
     async def on_error(self, error: Any):
         logger.error(logs.StructuredMessage("Error", src=self, error=error))
